@@ -185,9 +185,18 @@ pub fn eval(n: &Node, at: C) -> R {
                     if vs[0].norm() == 0.0 || !finite(vs[0]) {
                         return RV::Unspec("U3: zeroth root");
                     }
-                    pow(vs[1], C::new(1.0, 0.0) / vs[0], q)
+                    let b = div_scaled(C::new(1.0, 0.0), vs[0]);
+                    if b.re.abs() < 4.0 * f64::MIN_POSITIVE && b.im.abs() < 4.0 * f64::MIN_POSITIVE {
+                        // the convention x^(1/n) with 1/n formed in doubles: it underflows, and x^0 follows from it
+                        return RV::Unspec("U3: 1/n underflows");
+                    }
+                    pow(vs[1], b, q)
                 }
                 Sqrt => {
+                    if z.norm() == 0.0 {
+                        // the branch point itself: every branch gives 0
+                        return approx(q, C::new(0.0, 0.0));
+                    }
                     if on_neg_real_cut(z) {
                         return RV::Unspec("U3: sqrt on its branch cut");
                     }
@@ -335,10 +344,22 @@ fn pow(a: C, b: C, q: Q) -> R {
         return RV::Unspec("U3: non-finite power");
     }
     if a.norm() == 0.0 {
-        return RV::Unspec("U3: power of zero");
+        // the value of 0^b is fixed where the definition exp(b ln 0) has a limit: 0 for Re b > 0, and 1 for b = 0
+        // (the empty product, eval_f64's pow(0,0) for real operands)
+        if b.norm() == 0.0 {
+            return approx(q, C::new(1.0, 0.0));
+        }
+        if b.re > 0.0 {
+            return approx(q, C::new(0.0, 0.0));
+        }
+        return RV::Unspec("U3: zero to a power with a non-positive real part");
     }
     if on_neg_real_cut(a) {
         return RV::Unspec("U3: power with its base on the branch cut");
+    }
+    if (b * a.ln()).norm() > 1e6 {
+        // exp(b ln a): the relative error of the result is |b ln a| times that of the operands (1e-16 at best)
+        return RV::Unspec("U3: power too ill-conditioned for double precision");
     }
     approx(q, a.powc(b))
 }
